@@ -46,7 +46,9 @@ type tvWalk struct {
 	// Branch: called when the path takes a branch whose condition the assumptions do not decide.
 	Branch func(iff *ssa.If, taken bool, st map[string]bool)
 	// Ret: called at every return the paths reach.
-	Ret    func(ret *ssa.Return, st map[string]bool, val func(ssa.Value) tv)
+	Ret func(ret *ssa.Return, st map[string]bool, val func(ssa.Value) tv)
+	// From: while Step runs, the block the path entered the current block from (to resolve phis)
+	From   *ssa.BasicBlock
 	Visits int // how often a path may enter the same block (default 1: acyclic; 3 follows a loop twice)
 	Limit  int
 	Over   bool
@@ -143,6 +145,7 @@ func (w *tvWalk) run(start *ssa.BasicBlock, init map[string]bool) {
 			env[x] = t
 		}
 		for _, in := range b.Instrs {
+			w.From = from
 			// the boolean values this walker computes itself, at the moment they are executed
 			if v, ok := in.(ssa.Value); ok {
 				if _, isPhi := in.(*ssa.Phi); !isPhi {
